@@ -17,8 +17,10 @@ Amounts are the ones frozen in the item at publication (`Item.pubColl`, `Item.in
 parameter change between publication, challenge and resolution can make a send fail: no counterexample state exists.
 Records are counted with multiplicity (`recs`) in the statements over `Inv`, which does not contain "one record per
 sender and item". `Good` = `Inv` ∧ `NoHalt` ∧ stored collateral is `Coins.IsValid` ∧ one record per sender and item
-(S13 fix, `hasInval`); it holds in every reachable state (`good_reachable`) and at every step inside a block, and gives
-the rule challenger by challenger (`good_*_each_challenger`) with the share `⌊pub(d) / n⌋` and the dust `pub(d) mod n`.
+(S13 fix, `hasInval`) ∧ every `challenging` item has a recorded challenger (`Challenged`; it was a clause of `NoHalt`
+until the division by `len(invalidities) = 0` was fixed in `abci.go`); it holds in every reachable state
+(`good_reachable`) and at every step inside a block, and gives the rule challenger by challenger
+(`good_*_each_challenger`) with the share `⌊pub(d) / n⌋` and the dust `pub(d) mod n`.
 -/
 set_option linter.unusedSimpArgs false
 set_option linter.unusedVariables false
@@ -435,33 +437,22 @@ theorem tally_rejected_pays_exactly {env : Env} {s s' : St} {u : String} {it : I
   simp only [Res.ok.injEq] at h3
   subst h3
   try rw [if_pos hrej] at hs3
-  split at hs3
-  · cases hs3
-  rename_i hnp
   simp only [Res.ok.injEq] at hs3
   subst hs3
   by_cases hn0 : (invsOf s it.uri).length = 0
-  · have hLnil : invsOf s it.uri = [] := List.eq_nil_of_length_eq_zero hn0
-    have hpubnil : it.pubColl = [] := by
-      cases hp : it.pubColl with
-      | nil => rfl
-      | cons c r =>
-        exfalso
-        apply hnp
-        exact ⟨by simp [hn0], by simp [hp]⟩
-    have e : (invsOf s it.uri).foldl
-          (payChallenger (it.invColl ++ rewardShare it.pubColl ((invsOf s it.uri).length : Int)))
-          { s with items := setItem s.items { it with status := .rej, ts := s.now } }
-        = { s with items := setItem s.items { it with status := .rej, ts := s.now } } := by
-      rw [hLnil]; rfl
-    rw [e]
+  · -- no recorded challenger (a re-imported item): nobody is paid, the whole publish collateral is booked as dust
+    have hLnil : invsOf s it.uri = [] := List.eq_nil_of_length_eq_zero hn0
+    rw [hLnil]
+    simp only [List.foldl_nil, List.length_nil]
     refine ⟨?_, ?_, ?_, ?_, rfl, rfl, rfl, ?_⟩
     · intro a d _; simp [hLnil, recs_nil]
     · intro d; simp [hLnil]
-    · intro d; simp [hLnil, addDust, hpubnil, rewardShare, amt_nil]
-    · intro d; simp [hLnil, hpubnil, amt_nil]
+    · intro d; simp [hLnil, addDust, rewardShare, amt_nil]
+    · intro d; have := amt_nonneg hpubnn d; simp [hLnil]; omega
     · rw [hLnil]; trivial
   · have hn : (0 : Int) < ((invsOf s it.uri).length : Int) := by omega
+    have hne0 : ¬ (((invsOf s it.uri).length : Int) = 0) := by omega
+    simp only [if_neg hne0]
     have hrw := rewardShare_amt hpubnn hn
     have hC : ∀ c ∈ it.invColl ++ rewardShare it.pubColl ((invsOf s it.uri).length : Int), 0 ≤ c.2 := by
       intro c hc
@@ -712,24 +703,38 @@ theorem rejected_publisher_gets_nothing {env : Env} {s s' : St} {u : String} {it
   rw [(tally_rejected_pays_exactly hi hf hch hrej h).bal _ d (hi.pubs it hmem), recs_zero_of_absent hno]
   simp
 
-/-- rejection with valid coins and `n ≥ 1` challengers: per record `inv(d) + ⌊pub(d) / n⌋`; the module account keeps
-    `pub(d) mod n` as dust -/
+/-- with no challenger nothing is divided: every share is 0 -/
+theorem rewardShare_zero_amt (pub : Coins) (d : Denom) : amt (rewardShare pub 0) d = 0 := by
+  induction pub with
+  | nil => rfl
+  | cons c cs ih =>
+    have hr : rewardShare (c :: cs) 0 = (c.1, 0) :: rewardShare cs 0 := by
+      simp [rewardShare]
+    rw [hr, amt_cons, ih]
+    simp
+
+/-- rejection with valid coins and `n` challengers: per record `inv(d) + ⌊pub(d) / n⌋`; the module account keeps
+    `pub(d) mod n` as dust. No hypothesis on `n`: for `n = 0` (an item re-imported without its invalidities) nobody holds
+    a record, and with Lean's `x / 0 = 0`, `x % 0 = x` the dust is the whole publish collateral. -/
 theorem rejected_share_is_floor {env : Env} {s s' : St} {u : String} {it : Item} (hi : Inv s)
     (hf : findItem s u = some it) (hch : it.status = .ch)
     (hrej : (tallyOutcome s.params.rf it (proofsOf s u) env.active (env.assign u)).rejected = true)
-    (h : tallyOne env s u = .ok s') (hv : coinsValid it.pubColl = true) (hn : invsOf s it.uri ≠ []) :
+    (h : tallyOne env s u = .ok s') (hv : coinsValid it.pubColl = true) :
     (∀ a d, a ≠ daAcc → s'.bank.bal a d = s.bank.bal a d
         + recs (invsOf s it.uri) a * (amt it.invColl d + amt it.pubColl d / ((invsOf s it.uri).length : Int)))
     ∧ (∀ d, s'.dust d = s.dust d + amt it.pubColl d % ((invsOf s it.uri).length : Int)) := by
-  have hpos : (0 : Int) < ((invsOf s it.uri).length : Int) := by
-    have : (invsOf s it.uri).length ≠ 0 := fun e => hn (List.eq_nil_of_length_eq_zero e)
-    omega
   have r := tally_rejected_pays_exactly hi hf hch hrej h
+  have key : ∀ d, amt (rewardShare it.pubColl ((invsOf s it.uri).length : Int)) d
+      = amt it.pubColl d / ((invsOf s it.uri).length : Int) := by
+    intro d
+    by_cases hn0 : (invsOf s it.uri).length = 0
+    · rw [hn0]; simp [rewardShare_zero_amt]
+    · exact rewardShare_floor hv (by omega) d
   refine ⟨?_, ?_⟩
   · intro a d ha
-    rw [r.bal a d ha, rewardShare_floor hv hpos]
+    rw [r.bal a d ha, key]
   · intro d
-    rw [r.dust d, rewardShare_floor hv hpos, Int.emod_def]
+    rw [r.dust d, key, Int.emod_def]
 
 /-- verification after challenge: an account other than the publisher all of whose records are wrong gets nothing back -/
 theorem verified_wrong_forfeits {env : Env} {s s' : St} {u : String} {it : Item} (hi : Inv s)
@@ -957,12 +962,190 @@ theorem uniq_tallyOne {env : Env} {s s' : St} {u : String} (hi : Inv s) (h : Uni
     · rw [tallyOne_other (by intro it' e; rw [hf] at e; cases e; exact hch)] at ht
       cases ht; exact h
 
+/-! #### a `challenging` item of a history from genesis has a recorded challenger
+This used to be a clause of `NoHalt` (it excluded the division by `len(invalidities) = 0` of the rejected branch, gone
+with the fix of `abci.go`). It is no longer needed for "no panic"; it is kept here because it is what makes "every
+rejection of a history from genesis pays `n ≥ 1` challengers" true. It does NOT hold after a genesis import (the
+invalidities are dropped): there the `Inv`-only statements apply, with `n = 0`. -/
+/-- every item in status `challenging` has at least one recorded invalidity (guaranteed on entry by the guard `0 < n`
+    of `toChallengingOne`; the invalidities of a uri are only deleted when its item leaves `challenging`) -/
+def Challenged (s : St) : Prop := ∀ it ∈ s.items, it.status = .ch → invsOf s it.uri ≠ []
+
+/-- no item with uri `u` is in status `challenging` -/
+def Term (s : St) (u : String) : Prop := ∀ it ∈ s.items, it.uri = u → it.status ≠ .ch
+
+/-- monotone in "fewer items, more invalidities" -/
+theorem Challenged.mono {s s' : St} (h : Challenged s) (hi : ∀ x ∈ s'.items, x ∈ s.items)
+    (hv : ∀ w, invsOf s w ≠ [] → invsOf s' w ≠ []) : Challenged s' :=
+  fun it hit hs => hv _ (h it (hi it hit) hs)
+
+theorem Challenged.congr {s s' : St} (h : Challenged s) (hi : s'.items = s.items) (hv : s'.invs = s.invs) :
+    Challenged s' := by
+  apply h.mono (by rw [hi]; exact fun x hx => hx)
+  intro w hw
+  unfold invsOf at *
+  rw [hv]; exact hw
+
+theorem filter_uri_keep (invs : List Inval) (p : Inval → Bool) (w : String)
+    (h : ∀ x ∈ invs, x.uri = w → p x = true) :
+    (invs.filter p).filter (fun x => x.uri == w) = invs.filter (fun x => x.uri == w) := by
+  rw [List.filter_filter]
+  apply List.filter_congr
+  intro x hx
+  by_cases hv : x.uri = w
+  · simp [hv, h x hx hv]
+  · simp [hv]
+
+/-- deleting invalidities of a uri none of whose items is `challenging` -/
+theorem Challenged.dropRecords {s s' : St} {u : String} (h : Challenged s) (ht : Term s u) (p : Inval → Bool)
+    (hp : ∀ x ∈ s.invs, x.uri ≠ u → p x = true)
+    (hi : s'.items = s.items) (hv : s'.invs = s.invs.filter p) : Challenged s' := by
+  intro it hit hs
+  rw [hi] at hit
+  have hne : it.uri ≠ u := fun e => ht it hit e hs
+  have := h it hit hs
+  unfold invsOf at *
+  rw [hv, filter_uri_keep]
+  · exact this
+  · intro x hx hxu; exact hp x hx (by rw [hxu]; exact hne)
+
+/-- re-tagging a stored item (status, timestamp); entering `challenging` needs a recorded invalidity -/
+theorem Challenged.retag {s : St} (h : Challenged s) {it : Item} (hmem : it ∈ s.items) (st : Status) (t : Int)
+    (hst : st = .ch → invsOf s it.uri ≠ []) :
+    Challenged { s with items := setItem s.items { it with status := st, ts := t } } := by
+  intro x hx hs
+  rcases mem_setItem hx with rfl | ⟨hx', _⟩
+  · exact hst hs
+  · exact h x hx' hs
+
+theorem term_retag {s : St} {it : Item} (st : Status) (t : Int) (hst : st ≠ .ch) :
+    Term { s with items := setItem s.items { it with status := st, ts := t } } it.uri := by
+  intro x hx hu hs
+  rcases mem_setItem hx with rfl | ⟨_, hne⟩
+  · exact hst hs
+  · exact hne hu
+
+/-- the state after resolving item `it`: every item with its uri leaves `challenging`, its invalidities are deleted -/
+theorem Challenged.resolve {s s' : St} (h : Challenged s) {it : Item} (hmem : it ∈ s.items) (st : Status) (t : Int)
+    (hst : st ≠ .ch) (hi : s'.items = setItem s.items { it with status := st, ts := t })
+    (hv : s'.invs = s.invs.filter (fun x => !(x.uri == it.uri))) : Challenged s' := by
+  have h1 := h.retag hmem st t (fun e => absurd e hst)
+  have t1 := term_retag (s := s) (it := it) st t hst
+  exact h1.dropRecords t1 (fun x => !(x.uri == it.uri)) (by intro x _ hne; simp [hne]) hi hv
+
+theorem invsOf_insert_ne_nil (lt : Inval → Inval → Bool) (r : Inval) (invs : List Inval) (w : String)
+    (h : invs.filter (fun x => x.uri == w) ≠ []) : (insertBy lt r invs).filter (fun x => x.uri == w) ≠ [] := by
+  intro hnil
+  apply h
+  rw [List.filter_eq_nil_iff] at hnil ⊢
+  intro x hx
+  exact hnil x ((mem_insertBy8 _ _ _ _).2 (Or.inr hx))
+
+theorem challenged_publish {s s' : St} {a : Addr} {u : String} {n p : Nat} (hi : Challenged s)
+    (h : publish s a u n p = .ok s') : Challenged s' := by
+  unfold publish at h
+  split at h
+  · cases h
+  split at h
+  · cases h
+  simp only [] at h
+  have common : ∀ b : Bank, Challenged { s with
+      items := insertBy itemLt ⟨u, .cp, s.now, a, n, p, s.params.pub, s.params.inv⟩ s.items, bank := b } := by
+    intro b y hy hs
+    rcases (mem_insertBy8 _ _ _ _).1 hy with rfl | hy
+    · cases hs
+    · exact hi y hy hs
+  split at h
+  · obtain ⟨b, _, hb⟩ := bind_ok h
+    simp only [Res.ok.injEq] at hb
+    subst hb; exact common b
+  · simp only [Res.ok.injEq] at h
+    subst h; exact common s.bank
+
+theorem challenged_submitInvalidity {s s' : St} {a : Addr} {u : String} {ix : List Int} (hi : Challenged s)
+    (h : submitInvalidity s a u ix = .ok s') : Challenged s' := by
+  unfold submitInvalidity at h
+  split at h
+  · cases h
+  split at h
+  · cases h
+  split at h
+  · cases h
+  split at h
+  · cases h
+  split at h
+  · cases h
+  simp only [] at h
+  split at h
+  · obtain ⟨b, _, hb⟩ := bind_ok h
+    simp only [Res.ok.injEq] at hb
+    subst hb
+    exact hi.mono (fun x hx => hx) (fun w hw => invsOf_insert_ne_nil _ _ _ _ hw)
+  · simp only [Res.ok.injEq] at h
+    subst h
+    exact hi.mono (fun x hx => hx) (fun w hw => invsOf_insert_ne_nil _ _ _ _ hw)
+
+theorem challenged_pruneOne {s : St} (st : Status) (hi : Challenged s) (u : String) : Challenged (pruneOne st s u) := by
+  unfold pruneOne
+  split
+  · split
+    · exact hi.mono (fun x hx => (List.mem_filter.1 hx).1) (fun w hw => hw)
+    · exact hi
+  · exact hi
+
+theorem challenged_toChallengingOne {s : St} (hi : Challenged s) (u : String) : Challenged (toChallengingOne s u) := by
+  unfold toChallengingOne
+  split
+  · rename_i it hfind
+    obtain ⟨hmem, huri⟩ := findItem_some8 hfind
+    split
+    · simp only []
+      split
+      · rename_i hg
+        apply hi.retag hmem
+        intro _ hnil
+        rw [huri] at hnil
+        rw [hnil] at hg
+        simp [distinctIndices] at hg
+      · exact hi
+    · exact hi
+  · exact hi
+
+theorem challenged_toVerifiedOne {s : St} (hi : Inv s) (h : Challenged s) (u : String) :
+    Challenged (toVerifiedOne s u) := by
+  cases hf : findItem s u with
+  | none => rw [toVerifiedOne_other (by intro it e; rw [hf] at e; cases e)]; exact h
+  | some it =>
+    by_cases hcp : it.status = .cp
+    · have r := expiry_pays_exactly hi hf hcp
+      exact h.resolve (findItem_some8 hf).1 .ver s.now (by decide) r.items r.records
+    · rw [toVerifiedOne_other (by intro it' e; rw [hf] at e; cases e; exact hcp)]; exact h
+
+theorem challenged_tallyOne {env : Env} {s s' : St} {u : String} (hi : Inv s) (h : Challenged s)
+    (ht : tallyOne env s u = .ok s') : Challenged s' := by
+  cases hf : findItem s u with
+  | none =>
+    rw [tallyOne_other (by intro it e; rw [hf] at e; cases e)] at ht
+    cases ht; exact h
+  | some it =>
+    by_cases hch : it.status = .ch
+    · cases hr : (tallyOutcome s.params.rf it (proofsOf s u) env.active (env.assign u)).rejected with
+      | true =>
+        have r := tally_rejected_pays_exactly hi hf hch hr ht
+        exact h.resolve (findItem_some8 hf).1 .rej s.now (by decide) r.items r.records
+      | false =>
+        have r := tally_verified_pays_exactly hi hf hch hr ht
+        exact h.resolve (findItem_some8 hf).1 .ver s.now (by decide) r.items r.records
+    · rw [tallyOne_other (by intro it' e; rw [hf] at e; cases e; exact hch)] at ht
+      cases ht; exact h
+
 /-- the invariants the payout statements use, together -/
 structure Good (s : St) : Prop where
   inv : Inv s
   nohalt : NoHalt s
   coll : CollValid s
   uniq : Uniq s.invs
+  chal : Challenged s
 
 theorem good_foldl {f : St → String → St} (hf : ∀ s u, Good s → Good (f s u)) :
     ∀ (l : List String) (s : St), Good s → Good (l.foldl f s) := by
@@ -974,20 +1157,21 @@ theorem good_foldl {f : St → String → St} (hf : ∀ s u, Good s → Good (f 
 theorem good_pruneOne (st : Status) (hst : st.unresolved = false) (s : St) (u : String) (h : Good s) :
     Good (pruneOne st s u) :=
   ⟨inv_pruneOne st hst h.inv u, nohalt_pruneOne st h.nohalt u, collValid_pruneOne st h.coll u,
-    by rw [pruneOne_invs]; exact h.uniq⟩
+    by rw [pruneOne_invs]; exact h.uniq, challenged_pruneOne st h.chal u⟩
 
 theorem good_toChallengingOne (s : St) (u : String) (h : Good s) : Good (toChallengingOne s u) :=
   ⟨inv_toChallengingOne h.inv u, nohalt_toChallengingOne h.nohalt u, collValid_toChallengingOne h.coll u,
-    by rw [toChallengingOne_invs]; exact h.uniq⟩
+    by rw [toChallengingOne_invs]; exact h.uniq, challenged_toChallengingOne h.chal u⟩
 
 theorem good_toVerifiedOne (s : St) (u : String) (h : Good s) : Good (toVerifiedOne s u) :=
   ⟨inv_toVerifiedOne h.inv u, nohalt_toVerifiedOne h.nohalt u, collValid_toVerifiedOne h.inv h.coll u,
-    uniq_toVerifiedOne h.inv h.uniq u⟩
+    uniq_toVerifiedOne h.inv h.uniq u, challenged_toVerifiedOne h.inv h.chal u⟩
 
 theorem good_tallyOne {env : Env} {s s' : St} {u : String} (h : Good s) (ht : tallyOne env s u = .ok s') : Good s' := by
   obtain ⟨s'', e, hn⟩ := tallyOne_ok (env := env) h.nohalt u
   rw [ht] at e; cases e
-  exact ⟨inv_tallyOne h.inv ht, hn, collValid_tallyOne h.inv h.coll ht, uniq_tallyOne h.inv h.uniq ht⟩
+  exact ⟨inv_tallyOne h.inv ht, hn, collValid_tallyOne h.inv h.coll ht, uniq_tallyOne h.inv h.uniq ht,
+    challenged_tallyOne h.inv h.chal ht⟩
 
 theorem good_tallyList {env : Env} : ∀ (l : List String) {s s' : St}, Good s → tallyList env l s = .ok s' → Good s' := by
   intro l
@@ -1125,7 +1309,7 @@ theorem collValid_submitInvalidity {s s' : St} {a : Addr} {u : String} {ix : Lis
     subst hr; exact ⟨h.params, h.items⟩
 
 theorem good_time {s : St} (h : Good s) (t ht : Int) : Good { s with now := t, height := ht } :=
-  ⟨inv_time h.inv t ht, nohalt_time h.nohalt t ht, ⟨h.coll.params, h.coll.items⟩, h.uniq⟩
+  ⟨inv_time h.inv t ht, nohalt_time h.nohalt t ht, ⟨h.coll.params, h.coll.items⟩, h.uniq, h.chal.congr rfl rfl⟩
 
 theorem good_endBlock {env : Env} {s s' : St} {sl : List Addr} (hg : Good s) (h : endBlock env s = .ok (s', sl)) :
     Good s' := by
@@ -1142,7 +1326,7 @@ theorem good_endBlock {env : Env} {s s' : St} {sl : List Addr} (hg : Good s) (h 
   · simp only [Res.ok.injEq] at h6
     have : s' = (slashEpoch env s5).1 := by rw [h6]
     subst this
-    exact ⟨hi', hn', ⟨g5.coll.params, g5.coll.items⟩, g5.uniq⟩
+    exact ⟨hi', hn', ⟨g5.coll.params, g5.coll.items⟩, g5.uniq, g5.chal.congr rfl rfl⟩
   · simp only [Res.ok.injEq, Prod.mk.injEq] at h6
     rw [← h6.1]; exact g5
 
@@ -1199,12 +1383,63 @@ theorem coll_uniq_step {s : St} (op : Op) (hg : Good s) : CollValid (step s op).
     | err c => exact ⟨h, hu⟩
     | panic k => exact ⟨h, hu⟩
 
+theorem challenged_step {s : St} (op : Op) (hg : Good s) : Challenged (step s op).1 := by
+  have h := hg.chal
+  cases op with
+  | publish a u n p =>
+    simp only [step]
+    cases hr : publish s a u n p with
+    | ok s' => exact challenged_publish h hr
+    | err c => exact h
+    | panic k => exact h
+  | invalid a u ix =>
+    simp only [step]
+    cases hr : submitInvalidity s a u ix with
+    | ok s' => exact challenged_submitInvalidity h hr
+    | err c => exact h
+    | panic k => exact h
+  | proof a v u ixs e x b =>
+    simp only [step]
+    cases hr : submitProof s a v u ixs e x b with
+    | ok s' =>
+      simp only [applyMsg]
+      obtain ⟨_, a2, a3, _, _⟩ := submitProof_fields hr
+      exact h.congr a2 a3
+    | err c => exact h
+    | panic k => exact h
+  | regdep a d =>
+    simp only [step, registerDeputy]
+    exact h.congr rfl rfl
+  | unregdep a =>
+    simp only [step]
+    unfold unregisterDeputy
+    split
+    · exact h
+    · simp only [applyMsg]
+      exact h.congr rfl rfl
+  | setParams p =>
+    simp only [step]
+    unfold updateParams
+    split
+    · simp only [applyMsg]
+      exact h.congr rfl rfl
+    · exact h
+  | block env dt =>
+    simp only [step]
+    cases hr : block env s dt with
+    | ok r =>
+      obtain ⟨s', sl⟩ := r
+      exact (good_endBlock (good_time hg _ _) hr).chal
+    | err c => exact h
+    | panic k => exact h
+
 theorem good_step {s : St} (op : Op) (hg : Good s) (hwf : op.wf) : Good (step s op).1 :=
-  ⟨inv_step op hg.inv hwf, nohalt_step op hg.nohalt, (coll_uniq_step op hg).1, (coll_uniq_step op hg).2⟩
+  ⟨inv_step op hg.inv hwf, nohalt_step op hg.nohalt, (coll_uniq_step op hg).1, (coll_uniq_step op hg).2,
+    challenged_step op hg⟩
 
 theorem good_init {s : St} (h : Init s) : Good s :=
   ⟨inv_init h, nohalt_init h, ⟨h.params, by rw [h.items]; intro x hx; cases hx⟩,
-    by rw [h.invs]; intro u a; simp [recs]⟩
+    by rw [h.invs]; intro u a; simp [recs], by rw [Challenged, h.items]; intro x hx; cases hx⟩
 
 /-- every reachable state satisfies the escrow invariant, the no-halt invariant, and stores only valid collateral -/
 theorem good_reachable {s : St} (h : Reachable s) : Good s := by
@@ -1228,8 +1463,8 @@ theorem good_rejected_share_is_floor {env : Env} {s s' : St} {u : String} {it : 
     ∧ (∀ d, s'.dust d = s.dust d + amt it.pubColl d % ((invsOf s it.uri).length : Int))
     ∧ 0 < (invsOf s it.uri).length := by
   have hmem := (findItem_some8 hf).1
-  have hne := hg.nohalt.challenged it hmem hch
-  obtain ⟨r1, r2⟩ := rejected_share_is_floor hg.inv hf hch hrej h (hg.coll.items it hmem).1 hne
+  have hne := hg.chal it hmem hch
+  obtain ⟨r1, r2⟩ := rejected_share_is_floor hg.inv hf hch hrej h (hg.coll.items it hmem).1
   exact ⟨r1, r2, List.length_pos_iff.2 hne⟩
 
 /-! #### the rule, challenger by challenger (good states: one record per challenger) -/
